@@ -52,6 +52,7 @@ PROPS = {
 }
 WORKERS = int(os.environ.get("VERIF_WORKERS", "12"))
 INFRA_CLASSES = {"INFRA", "MODEL"}
+UB_CLASSES = {"SANITIZER", "HEAP_GUARD", "SIGSEGV"}
 
 
 def log(*a):
@@ -465,17 +466,27 @@ def main():
             if r10["cls"] == "OK":
                 log("budget hit at run %d vanished with a 10x budget: not a violation" % v["run"])
                 continue
-        # gate 1: same seed again (fresh process) -> same class and event-log hash
+        # gate 1: same seed again (fresh process) -> same class and event-log hash.
+        # One exception: a memory error of the code under test (sanitizer report, damaged guard zone, fatal signal) is
+        # undefined behaviour - what the program does up to the report may depend on heap addresses and stale memory, so
+        # the event log of the repetition may differ although the simulator made the same decisions. Such a violation is
+        # believed when every repetition and the replay end in the same class; the report says that the hash varied.
+        ub_class = res["cls"] in UB_CLASSES
         os.makedirs(trace_dir + "-g1", exist_ok=True)
         r1, v1, e1 = run_worker(h, seed, v["run"], 1, trace_dir + "-g1", "gate1")
-        if e1 or v1 is None or v1["result"]["cls"] != res["cls"] or v1["result"]["hash"] != res["hash"]:
+        if not e1 and v1 is not None and ub_class and v1["result"]["cls"] in UB_CLASSES and v1["result"]["hash"] != res["hash"]:
+            log("memory error of the code under test at %s run %d: event-log hash varies between repetitions (undefined behaviour), class reproduced" % (h, v["run"]))
+            v["ub_hash_varies"] = True
+        elif e1 or v1 is None or v1["result"]["cls"] != res["cls"] or v1["result"]["hash"] != res["hash"]:
             infra_gate = "gate 1 (same seed twice) failed for %s run %d: first %s/%s, second %s" % (
                 h, v["run"], res["cls"], res["hash"], (v1["result"]["cls"] + "/" + v1["result"]["hash"]) if v1 else e1 or "OK")
             break
         # gate 2: decision-trace replay in a fresh process, PRNG unused
         out2 = os.path.join(SCRATCH, "gate2-%d.json" % os.getpid())
         r2 = replay_once(h, trace, out2)
-        if r2["cls"] != res["cls"] or r2.get("hash") != res["hash"]:
+        if ub_class and r2["cls"] in UB_CLASSES:
+            pass
+        elif r2["cls"] != res["cls"] or r2.get("hash") != res["hash"]:
             infra_gate = "gate 2 (trace replay) failed for %s run %d: seed run %s/%s, replay %s/%s" % (
                 h, v["run"], res["cls"], res["hash"], r2["cls"], r2.get("hash"))
             break
@@ -489,7 +500,9 @@ def main():
             shutil.copy(best, final)
             r3 = replay_once(h, final, os.path.join(SCRATCH, "gate3-%d.json" % os.getpid()))
             tj = json.load(open(final))
-            if r3["cls"] != res["cls"] or r3.get("hash") != tj.get("hash"):
+            if ub_class and r3["cls"] in UB_CLASSES:
+                pass
+            elif r3["cls"] != res["cls"] or r3.get("hash") != tj.get("hash"):
                 infra_gate = "gate 3 (replay of the minimised trace) failed for %s run %d" % (h, v["run"])
                 break
         else:
@@ -500,6 +513,8 @@ def main():
         tj["class"] = res["cls"]
         tj["msg_classified"] = res["msg"]
         tj["property"] = pid
+        if v.get("ub_hash_varies"):
+            tj["note"] = "memory error of the code under test: the event-log hash varies between repetitions of this run (undefined behaviour), the class is reproduced by every repetition and by the replay"
         json.dump(tj, open(final, "w"), indent=1)
         reported.append({"harness": h, "run": v["run"], "cls": res["cls"], "msg": res["msg"], "replay": final, "minimisation": info})
     shutil.rmtree(trace_dir, ignore_errors=True)
